@@ -286,10 +286,8 @@ Proof. vm_compute. split; reflexivity. Qed.
    read back (separator inferred) as the same escaped segments -- all that
    [sem_path] reads of a prepared path besides the pre-parsed search attributes,
    which are part of the segments.  From C08 (guards: C08's [wf], the property's
-   own exclusion of dot texts starting with "/").  The step from equal segments
-   to equal prepared paths (the UNESCAPED twin parse, read only by the collector
-   and creation branches) is not proved; C01_notation_example and the judge of
-   harness/c01.py (every case in both notations) stand in for it. *)
+   own exclusion of dot texts starting with "/").  The step from equal escaped
+   segments to equal RESULTS is C01_notation below. *)
 Theorem C01_notation_segments_partial :
   forall l : list sseg,
     wf Dot l = true -> wf Slash l = true -> first_not_in ["/"%char] (render_ref Dot l) = true ->
@@ -297,3 +295,153 @@ Theorem C01_notation_segments_partial :
     parse Auto true (render_ref Slash l) = Ok (segs_of l).
 Proof. exact notation_same_segments. Qed.
 Print Assumptions C01_notation_segments_partial.
+
+
+(* ======================================================================== *)
+(* NOTATION: "the answer is the same whether the path is written in dot or
+   forward-slash notation" (proofs: Proofs/EvalNotation.v).
+
+   [prepare] zips the escaped parse of the text with its UNESCAPED twin parse;
+   the two notations agree on the former (C01_notation_segments_partial) and
+   differ on the latter (a separator escaped in one notation keeps its
+   back-slash there).  The required driver reads of the unescaped segment only
+   its TYPE and, for a collector, its attributes ([dispatch]'s [fallback]); the
+   sub-paths are prepared from the escaped search attribute / the collector
+   expression.  Hence, for every styled segment list that C08's [wf] accepts in
+   both notations (every segment kind - keyword searches and collectors
+   included; the only other guard is the property's own exclusion of a dot text
+   starting with "/"), every document, every oracle, every fuel: the two texts
+   prepare alike and the required query and exists() give EQUAL streams - the
+   same results in the same order with the same coordinates and reported
+   paths, the same way of stopping. *)
+From YP Require Import EvalNotation.
+
+Theorem C01_notation :
+  forall lit re_search nstr vstr kw_handler creator (l : list sseg) (f : nat) (d : node),
+    wf Dot l = true -> wf Slash l = true -> first_not_in ["/"%char] (render_ref Dot l) = true ->
+    match prepare f (render_ref Dot l), prepare f (render_ref Slash l) with
+    | Ok pd, Ok ps =>
+        get_required lit re_search nstr vstr kw_handler creator pd d
+        = get_required lit re_search nstr vstr kw_handler creator ps d
+        /\ exists_ lit re_search nstr vstr kw_handler creator pd d
+           = exists_ lit re_search nstr vstr kw_handler creator ps d
+    | OutOfFuel, OutOfFuel => True
+    | _, _ => False
+    end.
+Proof. exact notation_same_results. Qed.
+Print Assumptions C01_notation.
+
+(* what the proof rests on: similar prepared paths give equal streams *)
+Theorem C01_similar_paths_same_answer :
+  forall lit re_search nstr vstr kw_handler creator p q d,
+    ppath_sim p q ->
+    get_required lit re_search nstr vstr kw_handler creator p d
+    = get_required lit re_search nstr vstr kw_handler creator q d.
+Proof. exact required_sim. Qed.
+Print Assumptions C01_similar_paths_same_answer.
+
+(* non-vacuity: {"a.b": {"c/d": [{x: 1}, {x: 2}]}} and the segments  a.b  c/d  [x=2]  x :
+   dot text a\.b.c/d[x=2].x, forward-slash text /a.b/c\/d[x=2]/x.  The guards hold, both texts
+   prepare, the prepared paths DIFFER (unescaped twins a\.b | a.b and c/d | c\/d), the answers are
+   equal and not empty. *)
+Definition doc_not : node :=
+  NMap (inf2 0) [(leaf2 1 (PStr "a.b"),
+    NMap (inf2 2) [(leaf2 3 (PStr "c/d"),
+      NSeq (inf2 4) [NMap (inf2 5) [(leaf2 6 (PStr "x"), leaf2 7 (PInt 1))];
+                     NMap (inf2 8) [(leaf2 6 (PStr "x"), leaf2 9 (PInt 2))]])])].
+Definition segs_not : list sseg :=
+  [((Some TKey, AStr "a.b"), plain_style); ((Some TKey, AStr "c/d"), plain_style);
+   ((Some TSearch, ASearch false MEquals "x" "2"), plain_style); ((Some TKey, AStr "x"), plain_style)].
+Definition us_of (p : ppath) : list seg := match p with PPath l => map seg_us l | PFail _ => [] end.
+
+Example C01_notation_nonvacuous :
+  wf Dot segs_not = true /\ wf Slash segs_not = true /\ first_not_in ["/"%char] (render_ref Dot segs_not) = true
+  /\ render_ref Dot segs_not = "a\.b.c/d[x=2].x" /\ render_ref Slash segs_not = "/a.b/c\/d[x=2]/x"
+  /\ match prepare 5 (render_ref Dot segs_not), prepare 5 (render_ref Slash segs_not) with
+     | Ok pd, Ok ps =>
+         map snd (us_of pd) = [AStr "a\.b"; AStr "c/d"; ASearch false MEquals "x" "2"; AStr "x"]
+         /\ map snd (us_of ps) = [AStr "a.b"; AStr "c\/d"; ASearch false MEquals "x" "2"; AStr "x"]
+         /\ oids (get_required lit2 re2 nstr2 vstr2 kw2 cr2 pd doc_not) = ([9%N], Done)
+         /\ oids (get_required lit2 re2 nstr2 vstr2 kw2 cr2 ps doc_not) = ([9%N], Done)
+     | _, _ => False
+     end.
+Proof. vm_compute. repeat split; reflexivity. Qed.
+
+(* ======================================================================== *)
+(* DOCUMENT ORDER, EACH ONCE (proofs: Proofs/EvalOrder.v; vocabulary:
+   Spec/SpecC01Order.v, Spec/SpecC02.v).
+
+   [res_locn x]        the location of a result, read off its ancestry (C02:
+                       C02_reported_path_is_built_partial - that location holds the
+                       result's node);
+   [loc_before d a b]  where the ways from the root to a and to b part, a takes the
+                       earlier child (position among the pairs / elements / members of
+                       the parent): a comes before b in the document and neither lies
+                       above the other.  It is strict and asymmetric
+                       (C01_loc_before_strict), so results that are pairwise
+                       loc_before - each before every later one - are in document
+                       order, every node is named once, none together with a descendant.
+
+   Sub-fragment: the C01 fragment with `**` only as the LAST segment
+   ([trav_only_last]); a `**` followed by another segment gathers a node twice or
+   against document order (C01_results_doc_ordered_refuted).  The other guards are
+   those of the location theorem of C02: [c02_doc_ok] (keys pairwise unequal: every
+   loaded document), [c02_path_plain] (no [&anchor] segment, no index counted from
+   the end, integer-looking keys spelled like str(int)), slices last. *)
+From YP Require Import SpecC02 SpecC01Order EvalLocAll EvalOrder.
+
+Theorem C01_results_doc_ordered_partial :
+  forall lit re_search nstr vstr kw_handler creator d segs,
+    c02_doc_ok d = true ->
+    c01_frag (PPath segs) = true -> slices_last segs = true -> c02_path_plain segs = true ->
+    trav_only_last segs = true ->
+    ForallOrdPairs (fun x y => loc_before d (res_locn x) (res_locn y) = true)
+                   (fst (get_required lit re_search nstr vstr kw_handler creator (PPath segs) d)).
+Proof. exact required_ordered. Qed.
+Print Assumptions C01_results_doc_ordered_partial.
+
+Theorem C01_loc_before_strict :
+  forall (d : node) (a b s : loc),
+    loc_before d a (a ++ s)%list = false /\ loc_before d (a ++ s)%list a = false
+    /\ (loc_before d a b = true -> loc_before d b a = false).
+Proof. intros d a b s. split; [apply before_not_below | split; [apply before_not_above | apply before_asym]]. Qed.
+Print Assumptions C01_loc_before_strict.
+
+Fixpoint all_before (d : node) (ls : list loc) : bool :=
+  match ls with
+  | [] => true
+  | a :: r => forallb (loc_before d a) r && all_before d r
+  end.
+Definition ord_check (text : string) (d : node) : option (bool * list N * bool) :=
+  match prepare 20 text with
+  | Ok (PPath segs) =>
+      let g := get_required lit2 re2 nstr2 vstr2 kw2 cr2 (PPath segs) d in
+      Some (c02_doc_ok d && c01_frag (PPath segs) && slices_last segs && c02_path_plain segs && trav_only_last segs,
+            map node_oid (nodes_of (fst g)), all_before d (map res_locn (fst g)))
+  | _ => None
+  end.
+
+(* non-vacuity on doc_nv = {x: [{a: 1, b: [1, 2, 3]}, {a: 2, b: [4, 5, 6]}], s: !!set {a, b}}: pass-through,
+   wildcards, `**` last (the scalar 1 is ONE object at two places: two locations), searches, a set *)
+Example C01_doc_ordered_nonvacuous :
+  ord_check "x.b.*" doc_nv = Some (true, [5; 8; 9; 12; 13; 14]%N, true)
+  /\ ord_check "x.*.*" doc_nv = Some (true, [5; 7; 8; 11]%N, true)
+  /\ ord_check "**" doc_nv = Some (true, [5; 5; 8; 9; 8; 12; 13; 14; 17; 18]%N, true)
+  /\ ord_check "x[a!=9].b[0]" doc_nv = Some (true, [5; 12]%N, true)
+  /\ ord_check "s.*" doc_nv = Some (true, [17; 18]%N, true)
+  /\ ord_check "x.*[.=1].b.*" doc_nv = Some (true, [], true).
+Proof. vm_compute. repeat split. Qed.
+
+(* `**` followed by another segment is outside: {a: aa}, **[.^a] gathers aa twice (one location twice);
+   {a: b, b: zz}, **[.=b] gathers the value under b before the value under a *)
+Definition doc_dup2 : node := NMap (inf2 0) [ (leaf2 1 (PStr "a"), leaf2 2 (PStr "aa")) ].
+Definition doc_rev2 : node := NMap (inf2 0) [ (leaf2 1 (PStr "a"), leaf2 2 (PStr "b")); (leaf2 2 (PStr "b"), leaf2 3 (PStr "zz")) ].
+Theorem C01_results_doc_ordered_refuted :
+  ord_check "**[.^a]" doc_dup2 = Some (false, [2; 2]%N, false)
+  /\ ord_check "**[.=b]" doc_rev2 = Some (false, [3; 2]%N, false)
+  /\ match prepare 20 "**[.^a]" with
+     | Ok (PPath segs) => c02_doc_ok doc_dup2 && c01_frag (PPath segs) && slices_last segs && c02_path_plain segs = true
+                          /\ trav_only_last segs = false
+     | _ => False
+     end.
+Proof. vm_compute. repeat split. Qed.
